@@ -97,7 +97,8 @@
  * <op>: words separated by blanks; ops separated by ';'.  T = token, a small integer
  * (0..1023, may be written t5) chosen by the author of the case; s<k> = k-th socket the
  * library created in this case (0-based); x<j> = j-th DNS message the library transmitted;
- * xl = last transmitted message, xl-<n> = n before the last.  In name arguments "-" stands
+ * xl = last transmitted message, xl-<n> = n before the last; wherever a socket s<k> is expected,
+sx<j> / sxl / sxl-<n> names the socket that transmission was sent on.  In name arguments "-" stands
  * for the empty string.  class/type: mnemonic or number.
  *
  * Requests (each logs REQ, then possibly synchronous events/callbacks, then RET):
